@@ -9,7 +9,10 @@ run on labels through coq/HypotestRun.v.
 (3) counting models (1..n bins, 1..n channels, signal proportional to background): Asimov data, fitted parameters,
     q and q_A against the closed form (each comparison a Coq goal proved by `interval` about
     TestStat.stat_closed at the summed counts - theorem C08_multi_bin_reduction), and CLs / tail probabilities /
-    expected band against the formulae of C07 at those q, q_A."""
+    expected band against the formulae of C07 at those q, q_A.
+(4) models with nuisance parameters, one model object reused over a history of calls versus fresh objects.
+(5) the one-nuisance counting model (uncorrelated_background, one bin): Asimov data, fitted parameters, q, q_A against the closed
+    form of coq/HypotestNuis.v (each comparison a Coq goal proved by `interval`), CLs / tails / band against the C07 formulae."""
 import itertools
 import json
 import math
@@ -342,14 +345,210 @@ def run_history(h):
 def flat_result(d):
     return [d['obs']] + d['tails'] + d['band'] + d['asimov_pars'] + [d['sqrtqmuA']]
 
+
 # ---------------------------------------------------------------------------------------
-def load_corpus():
+# (5) the one-nuisance counting model ("on/off"): n ~ Pois(mu s + gamma b), auxiliary m ~ Pois(gamma tau), tau = (b/db)^2
+#     (pyhf.simplemodels.uncorrelated_background([s],[b],[db])).  Closed form: coq/HypotestNuis.v (gamma_cond = larger root of
+#     the stationarity quadratic, mu_hat = clamp of (n - (m/tau) b)/s, q_closed_onoff, asimov_n/asimov_m, qA_closed_onoff).
+#     Every comparison below is a Coq goal about those definitions proved by `interval`; the python floats only propose.
+TOL_PAR = 2e-3      # fitted parameters / Asimov data (= expectation at fitted parameters): optimiser accuracy on the arg-min
+TOL_CHAIN = 1e-3    # q_A on the exact Asimov data versus pyhf's q_A on its own (fitted) Asimov data, relative to max(1, q_A)
+# (s, b, db): tau = 25, 100, 9, 25, 16, (50/7)^2
+ONOFF_MODELS = [(6.0, 40.0, 8.0), (5.0, 50.0, 5.0), (4.0, 12.0, 4.0), (3.0, 10.0, 2.0), (2.0, 4.0, 1.0), (5.0, 50.0, 7.0)]
+ONOFF_AUX = [('nominal', 1.0), ('aux-low', 0.8), ('aux-high', 1.25)]
+
+ONOFF_HEADER = '''From Coq Require Import Reals Lra.
+From Interval Require Import Tactic.
+Require Import PV.Num PV.TestStat PV.HypotestNuis.
+Local Open Scope R_scope.
+'''
+
+
+def onoff_tau(b, db):
+    return (b / db) ** 2          # the float pyhf's shapesys builder computes (checked against model.config.auxdata in run_onoff)
+
+
+def gen_onoff(rng, n_models, n_mu, n_aux):
+    out = []
+    # quick: the models whose tau is a small integer (the exact rationals of the goals stay short: ~4x cheaper per goal); thorough: all, incl. tau = (50/7)^2
+    models = ONOFF_MODELS[:] if n_models >= len(ONOFF_MODELS) else [ONOFF_MODELS[0]] + rng.sample(ONOFF_MODELS[1:-1], max(0, n_models - 1))
+    for (s, b, db) in models:
+        tau = onoff_tau(b, db)
+        for kind in ('q', 'qtilde', 'q0'):
+            lo = -0.125 if kind == 'q' else 0.0
+            hi = 10.0
+            patterns = {'zero': 0.0, 'below-bkg': float(math.floor(0.6 * b)), 'bkg-like': float(round(b)), 'signal-like': float(round(b + s)),
+                        'above': float(round(1.6 * b + 3)), 'far-above': float(round(b + 12 * s))}
+            auxs = [ONOFF_AUX[0]] + rng.sample(ONOFF_AUX[1:], max(0, n_aux - 1))
+            for pname, n in patterns.items():
+                for aname, af in auxs:
+                    mus = [0.0] if kind == 'q0' else rng.sample([0.5, 1.0, 2.0, 3.5], n_mu)
+                    for mu in mus:
+                        out.append(dict(s=s, b=b, db=db, lo=lo, hi=hi, kind=kind, n=n, m=af * tau, mu=mu, pattern=pname, aux=aname))
+    return out
+
+
+def run_onoff(cases):
+    import pyhf
+    from pyhf.infer.calculators import generate_asimov_data
+    import logging
+    logging.getLogger('pyhf.infer.test_statistics').setLevel(logging.ERROR)
+    pyhf.set_backend('numpy')
+    tb, _ = pyhf.get_backend()
+    outs = []
+    for c in cases:
+        o = {}
+        try:
+            model = pyhf.simplemodels.uncorrelated_background([c['s']], [c['b']], [c['db']])
+            o['auxdata'] = [float(x) for x in model.config.auxdata]
+            o['par_order'] = list(model.config.par_order)
+            pi = model.config.poi_index
+            o['poi_index'] = pi
+            init, bounds, fixed = model.config.suggested_init(), model.config.suggested_bounds(), model.config.suggested_fixed()
+            bounds[pi] = (c['lo'], c['hi'])
+            data = [c['n'], c['m']]
+            r = pyhf.infer.hypotest(c['mu'], data, model, par_bounds=bounds, test_stat=c['kind'], return_tail_probs=True, return_expected_set=True, return_calculator=True)
+            o['obs'] = fl(tb, r[0])
+            o['tails'] = [fl(tb, x) for x in r[1]]
+            o['band'] = [fl(tb, x) for x in r[2]]
+            calc = r[3]
+            fp = calc.fitted_pars
+            o['fitted'] = {k: [float(x) for x in tb.tolist(getattr(fp, k))] for k in
+                           ('asimov_pars', 'free_fit_to_data', 'free_fit_to_asimov', 'fixed_poi_fit_to_data', 'fixed_poi_fit_to_asimov')}
+            o['sqrtqmuA'] = fl(tb, calc.sqrtqmuA_v)
+            func = pyhf.infer.utils.get_test_stat(c['kind'])
+            o['q'] = fl(tb, func(c['mu'], data, model, init, bounds, fixed))
+            amu = 1.0 if c['kind'] == 'q0' else 0.0
+            adata = generate_asimov_data(amu, data, model, init, bounds, fixed)
+            o['asimov'] = [float(x) for x in tb.tolist(adata)]
+            o['qA'] = fl(tb, func(c['mu'], adata, model, init, bounds, fixed))
+            # diagnostics for the decision only: the objective pyhf's two fits reached on the data and on the Asimov data
+            for tag, d in (('data', data), ('asimov', o['asimov'])):
+                mu_fit = 0.0 if c['kind'] == 'q0' else c['mu']
+                _, v1 = pyhf.infer.mle.fixed_poi_fit(mu_fit, d, model, init, bounds, fixed, return_fitted_val=True)
+                _, v2 = pyhf.infer.mle.fit(d, model, init, bounds, fixed, return_fitted_val=True)
+                o['objective_' + tag] = [float(v1), float(v2)]
+        except Exception as e:
+            o['exception'] = core.exc_enum(e)
+            o['msg'] = str(e)[:200]
+        outs.append(o)
+    return outs
+
+
+# python floats: proposer only
+def oo_gcond(n, m, s, b, tau, mu):
+    A = (b + tau) * b
+    B = (b + tau) * mu * s - (n + m) * b
+    C = -m * mu * s
+    return (-B + math.sqrt(max(0.0, B * B - 4 * A * C))) / (2 * A)
+
+
+def oo_nll(n, m, s, b, tau, mu, g):
+    l1, l2 = mu * s + g * b, g * tau
+    xlogy = lambda x, y: 0.0 if x == 0 else x * math.log(y)
+    return l1 - xlogy(n, l1) + l2 - xlogy(m, l2)
+
+
+def oo_muhat(n, m, s, b, tau, lo, hi):
+    return max(lo, min(hi, (n - (m / tau) * b) / s))
+
+
+def oo_stat(kind, n, m, s, b, tau, lo, hi, mu):
+    mh = oo_muhat(n, m, s, b, tau, lo, hi)
+    t = lambda x: 2 * (oo_nll(n, m, s, b, tau, x, oo_gcond(n, m, s, b, tau, x)) - oo_nll(n, m, s, b, tau, mh, oo_gcond(n, m, s, b, tau, mh)))
+    if kind in ('q', 'qtilde'):
+        return 0.0 if mu < mh else t(mu)
+    return 0.0 if mh < 0 else t(0.0)
+
+
+def oo_twice_nll_full(n, m, s, b, tau, mu, g):
+    """pyhf's objective (with the data-only terms) at a parameter point, for the optimiser-shortfall diagnosis"""
+    return 2 * (oo_nll(n, m, s, b, tau, mu, g) + math.lgamma(n + 1) + math.lgamma(m + 1))
+
+
+class OnOff:
+    """exact rationals of one case and the Coq text of the goals about it"""
+    def __init__(self, c, tau):
+        F = core.frac
+        self.c = c
+        self.n, self.m, self.s, self.b, self.tau, self.lo, self.hi, self.mu = (F(x) for x in (c['n'], c['m'], c['s'], c['b'], tau, c['lo'], c['hi'], c['mu']))
+        self.kind = c['kind']
+        self.amu = Fraction(1) if self.kind == 'q0' else Fraction(0)
+        self.mu_fit = Fraction(0) if self.kind == 'q0' else self.mu
+        self.model_args = ' '.join(c06.rat(x) for x in (self.s, self.b, self.tau))
+
+    def coef(self, n, m, mu):
+        A = (self.b + self.tau) * self.b
+        B = (self.b + self.tau) * (mu * self.s) - (n + m) * self.b
+        C = -(m * (mu * self.s))
+        return -B, B * B - 4 * A * C, 2 * A
+
+    def clamp(self, n, m):
+        u = (n - m / self.tau * self.b) / self.s
+        if u <= self.lo:
+            return self.lo, 'left'
+        if u >= self.hi:
+            return self.hi, 'right; right'
+        return u, 'right; left'
+
+    def gassert(self, name, n, m, mu):
+        r = c06.rat
+        cf = self.coef(n, m, mu)
+        return ('  assert (%s : gamma_cond %s %s %s %s = (%s + sqrt %s) / %s) by (apply gamma_cond_eq; unfold disc, qb, qa, qc; lra).\n'
+                % (name, r(n), r(m), self.model_args, r(mu), r(cf[0]), r(cf[1]), r(cf[2])))
+
+    def lemma(self, gid, expr, val, tol, proof):
+        return 'Lemma g_%d : Rabs (%s - %s) <= %s.\nProof.\n%s Qed.\n' % (gid, expr, c06.rat(val), c06.rat(tol), proof)
+
+    def goal_stat(self, gid, n, m, val, tol):
+        """q_closed_onoff at the (rational) data n, m"""
+        r = c06.rat
+        mh, path = self.clamp(n, m)
+        dargs = '%s %s %s %s %s' % (r(n), r(m), self.model_args, r(self.lo), r(self.hi))
+        proof = ('  assert (E : mu_hat %s = %s) by (apply mu_hat_eq; [lra | unfold mu_free; %s; split; lra]).\n' % (dargs, r(mh), path)
+                 + self.gassert('G1', n, m, self.mu_fit) + self.gassert('G2', n, m, mh)
+                 + '  unfold q_closed_onoff, t_onoff. rewrite E. try (destruct (Rlt_dec _ _); try (exfalso; lra)); unfold prof; try rewrite G1; try rewrite G2;\n'
+                   '  unfold nll_onoff, lam1, lam2; interval with (i_prec 60).')
+        return self.lemma(gid, 'q_closed_onoff %s %s %s' % (c06.SCOQ[self.kind], dargs, r(self.mu)), val, tol, proof)
+
+    def goal_chain(self, gid, val, tol):
+        """qA_closed_onoff: the statistic on the exact Asimov data of the conditional fit with the POI at amu (lo <= amu <= hi here)"""
+        r = c06.rat
+        dargs = '%s %s %s' % (r(self.n), r(self.m), self.model_args)
+        proof = (self.gassert('G0', self.n, self.m, self.amu)
+                 + '  rewrite (qA_closed_unfold _ _ _ _ _ _ _ _ _ _ _ G0). unfold q_closed_onoff, t_onoff. rewrite mu_hat_lam by lra.\n'
+                   '  try (destruct (Rlt_dec _ _); try (exfalso; lra)); unfold prof, nll_onoff, gamma_cond, disc, qb, qa, qc, lam1, lam2; interval with (i_prec 60).')
+        expr = 'qA_closed_onoff %s %s %s %s %s %s' % (c06.SCOQ[self.kind], dargs, r(self.lo), r(self.hi), r(self.mu), r(self.amu))
+        return self.lemma(gid, expr, val, tol, proof)
+
+    def goal_gamma(self, gid, n, m, mu, val, tol):
+        r = c06.rat
+        proof = self.gassert('G1', n, m, mu) + '  rewrite G1; interval with (i_prec 60).'
+        return self.lemma(gid, 'gamma_cond %s %s %s %s' % (r(n), r(m), self.model_args, r(mu)), val, tol, proof)
+
+    def goal_asimov(self, gid, which, val, tol):
+        r = c06.rat
+        proof = self.gassert('G1', self.n, self.m, self.amu) + '  unfold asimov_n, asimov_m, lam1, lam2; rewrite G1; interval with (i_prec 60).'
+        return self.lemma(gid, 'asimov_%s %s %s %s %s' % (which, r(self.n), r(self.m), self.model_args, r(self.amu)), val, tol, proof)
+
+
+def certify_onoff(ctx, name, items):
+    """c06.certify with the header of this part (same protocol: set of rejected goal ids)"""
+    saved = c06.GOAL_HEADER
+    c06.GOAL_HEADER = ONOFF_HEADER
+    try:
+        return c06.certify(ctx, name, items)
+    finally:
+        c06.GOAL_HEADER = saved
+
+# ---------------------------------------------------------------------------------------
+def load_corpus(key='counting'):
     d = os.path.join(core.VERIF, 'corpus', 'C08')
     out = []
     if os.path.isdir(d):
         for fn in sorted(os.listdir(d)):
             if fn.endswith('.json'):
-                out += json.load(open(os.path.join(d, fn))).get('counting', [])
+                out += json.load(open(os.path.join(d, fn))).get(key, [])
     return out
 
 
@@ -379,8 +578,15 @@ def run(ctx):
                     '(C08_multi_bin_reduction), tolerance 1e-5',
                     'the last step CLs = formulae(q, q_A) is evaluated with mpmath at the implementation\'s own q, q_A (relation proved in '
                     'C07/C08_hypotest_counting_analytic for an arbitrary cdf; numeric cdf is property C04)',
-                    'one-nuisance (on/off) models with closed-form profile are not covered by the counting part']
-    ctx.assumptions += ['exact fits in C08_hypotest_counting_analytic (cfit/cfixed); real optimiser within 1e-5 on the statistic']
+                    'one-nuisance (on/off) models: closed form coq/HypotestNuis.v (conditional optimum = larger root of the stationarity quadratic, clamped '
+                    'best fit, Asimov data, q, q_A), every comparison certified by Interval: q and q_A within 1e-5 (q_A on the Asimov data pyhf generated), '
+                    'Asimov data and fitted nuisance parameter within 2e-3 relative (accuracy of SLSQP on the arg-min), q_A on the exact Asimov data within '
+                    '1e-3 relative; a case where scipy stopped more than 2e-6 above the minimum of the objective it was given (pyhf objective evaluated at '
+                    'the closed-form optimum) is counted (onoff_optimiser_short_of_minimum) and its q/q_A not compared - optimiser quality is property C05']
+    ctx.assumptions += ['exact fits in C08_hypotest_counting_analytic (cfit/cfixed) and C08_hypotest_onoff_analytic (ofit/ofixed: proved to be the arg-min, '
+                        'C08_onoff_mu_hat_is_argmin / C08_onoff_gamma_cond_is_argmin); real optimiser within 1e-5 on the statistic',
+                        'C08_hypotest_onoff_analytic / C08_onoff_q_closed_form: observed count > 0 or POI range >= 0 (C08_onoff_q_closed_form_gen: rate positive at '
+                        'every conditional optimum of the range); gamma bounds of the shapesys parameter (1e-10, 10) not modelled: generated cases keep the optimum inside']
     fails = {}
     stats = dict(layout_runs=0, layout_by_calctype={}, prereq_runs=0, prereq_outcomes={}, counting_patterns={}, counting_kinds={},
                  counting_shapes={}, counting_goals=0, counting_goals_rejected=0, keyerror_unknown_calctype=None)
@@ -572,6 +778,148 @@ def run(ctx):
                     (case, o, dict(conditional_fit=cf), 'Asimov parameters %r are not the conditional fit %r to the data of this call' % (a['asimov_pars'], cf)))
     ctx.log('%d calls in %d reuse histories' % (stats['history_calls'], len(hists)))
 
+    # ---- (5) one-nuisance on/off models against the closed form of coq/HypotestNuis.v ----
+    rc5, mout5, _ = core.coq_make(['HypotestNuis.vo'])
+    if rc5 != 0:
+        tie = tie or ('coq/HypotestNuis.v does not build: ' + mout5[-800:])
+    ocases = load_corpus('onoff') + gen_onoff(rng, ctx.n(3, 6), ctx.n(2, 4), ctx.n(2, 3))
+    oouts = run_onoff(ocases)
+    ctx.log('%d on/off (one-nuisance) hypothesis tests run' % len(ocases))
+    stats.update(onoff_patterns={}, onoff_kinds={}, onoff_aux={}, onoff_regimes={}, onoff_models={}, onoff_goals=0, onoff_goals_rejected=0,
+                 onoff_optimiser_short_of_minimum=0)
+    oitems, ogoal_of = [], {}
+
+    def ocase(c):
+        return {k: c[k] for k in ('s', 'b', 'db', 'lo', 'hi', 'kind', 'n', 'm', 'mu', 'pattern', 'aux')}
+
+    def ofail(sig, c, o, exp, text):
+        fails.setdefault(sig, []).append((ocase(c), o, exp, text))
+
+    for i, (c, o) in enumerate(zip(ocases, oouts)):
+        evaluations += 1
+        tau = onoff_tau(c['b'], c['db'])
+        fn, fm, fs, fb, ft = float(c['n']), float(c['m']), float(c['s']), float(c['b']), tau
+        lo, hi, kind = c['lo'], c['hi'], c['kind']
+        mh = oo_muhat(fn, fm, fs, fb, ft, lo, hi)
+        u = (fn - fm / ft * fb) / fs
+        regime = 'at-lo' if u <= lo else ('at-hi' if u >= hi else 'interior')
+        for k, v in (('onoff_patterns', c['pattern']), ('onoff_kinds', kind), ('onoff_aux', c['aux']), ('onoff_regimes', regime),
+                     ('onoff_models', 's=%g b=%g db=%g' % (c['s'], c['b'], c['db']))):
+            stats[k][v] = stats[k].get(v, 0) + 1
+        sigs.add(('onoff', c['s'], c['b'], c['db'], kind, c['n'], c['m'], c['mu']))
+        if 'exception' in o:
+            ofail('onoff-raises:%s' % kind, c, o, 'a result', 'hypotest on the on/off model raises %s: %s' % (o['exception'], o['msg']))
+            continue
+        if o['auxdata'] != [tau] or o['par_order'] != ['mu', 'uncorr_bkguncrt'] or o['poi_index'] != 0:
+            # the closed form is for this layout: anything else is a harness assumption that no longer holds, not a finding about hypotest
+            tie = tie or ('on/off part: uncorrelated_background([%g],[%g],[%g]) has auxdata %r / parameters %r, the closed form assumes [%r] / [mu, gamma]'
+                          % (c['s'], c['b'], c['db'], o['auxdata'], o['par_order'], tau))
+            continue
+        G = OnOff(c, tau)
+        amu = float(G.amu)
+        mu_fit = float(G.mu_fit)
+        g_amu = oo_gcond(fn, fm, fs, fb, ft, amu)
+        ref_asimov = [amu * fs + g_amu * fb, g_amu * ft]
+
+        def propose(label, sig, val, ref, tol, goal, what):
+            """pre-screen with the float closed form (5 x tol), else queue the certified comparison"""
+            if val is None or abs(val - ref) > 5 * tol:
+                ofail(sig, c, o, {label: ref}, '%s = %r on the on/off model (n=%g, m=%g, s=%g, b=%g, tau=%g, mu=%g, POI range [%g, %g]), closed form %r'
+                      % (what, val, fn, fm, fs, fb, ft, c['mu'], lo, hi, ref))
+                return
+            gid = len(oitems)
+            ogoal_of[gid] = (i, sig, label, what, ref, val)
+            oitems.append((gid, goal(gid, val, tol)))
+
+        # Asimov data = expectation at the conditional fit with the POI at amu
+        if len(o['asimov']) != 2:
+            ofail('onoff:asimov-data:%s' % kind, c, o, dict(asimov=ref_asimov), 'generate_asimov_data returns %r, expected two entries' % (o['asimov'],))
+            continue
+        for j, w in enumerate(('n', 'm')):
+            tol = TOL_PAR * max(1.0, abs(ref_asimov[j]))
+            propose('asimov[%d]' % j, 'onoff:asimov-data:%s' % kind, o['asimov'][j], ref_asimov[j], tol,
+                    (lambda gid, val, tol, w=w: G.goal_asimov(gid, w, core.frac(val), core.frac(tol))),
+                    'generate_asimov_data(%g, ...)[%d]' % (amu, j))
+        # fitted parameters
+        f = o['fitted']
+        g_fit, g_hat = oo_gcond(fn, fm, fs, fb, ft, mu_fit), oo_gcond(fn, fm, fs, fb, ft, mh)
+        an, am = ref_asimov
+        gA_fit = oo_gcond(an, am, fs, fb, ft, mu_fit)
+        mhA = max(lo, min(hi, amu))
+        poi_want = dict(asimov_pars=(amu, 1e-9), fixed_poi_fit_to_data=(mu_fit, 1e-9), fixed_poi_fit_to_asimov=(mu_fit, 1e-9),
+                        free_fit_to_data=(mh, 5e-3 * max(1.0, abs(mh))), free_fit_to_asimov=(mhA, 5e-3 * max(1.0, abs(mhA))))
+        for name, (w, tol) in poi_want.items():
+            if len(f[name]) != 2 or abs(f[name][0] - w) > tol:
+                ofail('onoff:fitted-pars:%s:%s' % (name, kind), c, o, {name: w}, 'calculator.fitted_pars.%s = %r, analytic POI value %r' % (name, f[name], w))
+        fn_, fm_ = core.frac(c['n']), core.frac(c['m'])
+        for name, gref, at in (('asimov_pars', g_amu, G.amu), ('fixed_poi_fit_to_data', g_fit, G.mu_fit), ('free_fit_to_data', g_hat, None),
+                               ('free_fit_to_asimov', g_amu, G.amu)):
+            if len(f[name]) != 2:
+                continue
+            at_mu = G.clamp(fn_, fm_)[0] if at is None else at
+            propose(name, 'onoff:fitted-pars:%s:%s' % (name, kind), f[name][1], gref, TOL_PAR * max(1.0, abs(gref)),
+                    (lambda gid, val, tol, at_mu=at_mu: G.goal_gamma(gid, fn_, fm_, at_mu, core.frac(val), core.frac(tol))),
+                    'calculator.fitted_pars.%s[1] (the nuisance parameter)' % name)
+        if len(f['fixed_poi_fit_to_asimov']) == 2 and abs(f['fixed_poi_fit_to_asimov'][1] - gA_fit) > 5 * TOL_PAR * max(1.0, abs(gA_fit)):
+            ofail('onoff:fitted-pars:fixed_poi_fit_to_asimov:%s' % kind, c, o, dict(fixed_poi_fit_to_asimov=[mu_fit, gA_fit]),
+                  'calculator.fitted_pars.fixed_poi_fit_to_asimov = %r, conditional optimum on the Asimov data %r' % (f['fixed_poi_fit_to_asimov'], [mu_fit, gA_fit]))
+        # q on the data; q_A on pyhf's own Asimov data (tight) and on the exact Asimov data of the closed form (the chain; looser:
+        # the Asimov data are fitted parameters)
+        short = False
+        for tag, d in (('data', [fn, fm]), ('asimov', o['asimov'])):
+            mhd = oo_muhat(d[0], d[1], fs, fb, ft, lo, hi)
+            best = [oo_twice_nll_full(d[0], d[1], fs, fb, ft, mu_fit, oo_gcond(d[0], d[1], fs, fb, ft, mu_fit)),
+                    oo_twice_nll_full(d[0], d[1], fs, fb, ft, mhd, oo_gcond(d[0], d[1], fs, fb, ft, mhd))]
+            if any(got - want > 2e-6 for got, want in zip(o['objective_' + tag], best)):
+                short = True       # the optimiser stopped above the minimum of the objective it was given (property C05), not a hypotest matter
+        if short:
+            stats['onoff_optimiser_short_of_minimum'] += 1
+        qref = oo_stat(kind, fn, fm, fs, fb, ft, lo, hi, c['mu'])
+        qAref_own = oo_stat(kind, o['asimov'][0], o['asimov'][1], fs, fb, ft, lo, hi, c['mu'])
+        qAref = oo_stat(kind, an, am, fs, fb, ft, lo, hi, c['mu'])
+        if not short:
+            propose('q', 'onoff:q:%s' % kind, o['q'], qref, TOL_FIT, (lambda gid, val, tol: G.goal_stat(gid, fn_, fm_, core.frac(val), core.frac(tol))), 'q')
+            a0, a1 = core.frac(o['asimov'][0]), core.frac(o['asimov'][1])
+            if a0 >= 0 and a1 > 0:
+                propose('qA', 'onoff:qA:%s' % kind, o['qA'], qAref_own, TOL_FIT,
+                        (lambda gid, val, tol: G.goal_stat(gid, a0, a1, core.frac(val), core.frac(tol))), 'q_A (on the Asimov data pyhf generated)')
+            propose('qA_chain', 'onoff:qA-chain:%s' % kind, o['qA'], qAref, TOL_CHAIN * max(1.0, abs(qAref)),
+                    (lambda gid, val, tol: G.goal_chain(gid, core.frac(val), core.frac(tol))), 'q_A')
+        # the calculator's own Asimov statistic is the one recomputed above through the public functions
+        if o['sqrtqmuA'] is None or o['qA'] is None or abs(o['sqrtqmuA'] ** 2 - o['qA']) > 1e-9 * max(1.0, abs(o['qA'])):
+            ofail('onoff:sqrtqmuA:%s' % kind, c, o, dict(sqrtqmuA_squared=o['qA']),
+                  'calculator.sqrtqmuA_v^2 = %r, the statistic on generate_asimov_data(%g, ...) is %r' % (None if o['sqrtqmuA'] is None else o['sqrtqmuA'] ** 2, amu, o['qA']))
+        # p-values = the formulae at those q, q_A
+        if o['q'] is not None and o['qA'] is not None and o['qA'] > 0:
+            cc = dict(kind=kind, base='normal', q=o['q'], qA=o['qA'])
+            if c07.representable(cc):
+                ref = c07.mp_reference(cc)
+                want = c07.expected_observables(cc, ref['pvalues'], ref['expected'])
+                got = {'hypotest.obs': o['obs']}
+                for t, v in enumerate(o['tails']):
+                    got['hypotest.tail[%d]' % t] = v
+                for t, v in enumerate(o['band']):
+                    got['hypotest.band[%d]' % t] = v
+                for name in sorted(k for k in want if k.startswith('hypotest.')):
+                    g = got.get(name)
+                    if g is None or not c07.mp_close(want[name], g, 1e-6):
+                        ofail('onoff:pvalue:%s:%s' % (name.split('.')[1].split('[')[0], kind), c, o, {name: str(want[name])},
+                              '%s = %r, the asymptotic formulae at q=%r, qA=%r give %s' % (name, g, o['q'], o['qA'], want[name]))
+    orejected = set()
+    if rc5 == 0:
+        try:
+            orejected = certify_onoff(ctx, 'onoff', oitems)
+            stats['onoff_goals'] = len(oitems)
+            stats['onoff_goals_rejected'] = len(orejected)
+        except core.CoqEvalError as e:
+            tie = tie or ('certification of the on/off closed-form comparisons failed: %s' % str(e)[-800:])
+    for gid in sorted(orejected):
+        i, sig, label, what, ref, val = ogoal_of[gid]
+        c, o = ocases[i], oouts[i]
+        ofail(sig, c, o, {label: ref}, '%s = %r on the on/off model (n=%g, m=%g, s=%g, b=%g, db=%g, mu=%g), closed form %r: difference beyond the tolerance (certified by interval; coq/HypotestNuis.v)'
+              % (what, val, c['n'], c['m'], c['s'], c['b'], c['db'], c['mu'], ref))
+    ctx.log('%d on/off closed-form comparisons certified by interval, %d rejected' % (len(oitems), len(orejected)))
+
     # ---- decide ----
     found = False
     for sig in sorted(fails)[:8]:
@@ -586,6 +934,7 @@ def run(ctx):
                                       theorem='C08_layout_documented_order / C08_singleton_unwrapped' if sig.startswith('layout') else
                                       'C08_refused_without_poi / C08_refused_fixed_poi / C08_accepted_layout' if sig.startswith('prereq') else
                                       'C08_asimov_is_expectation (the Asimov data set is a function of the data of the call)' if sig.startswith('history') else
+                                      'C08_asimov_is_expectation / C08_onoff_* (coq/HypotestNuis.v: closed form of the one-nuisance counting model)' if sig.startswith('onoff') else
                                       'C08_asimov_is_expectation / C08_hypotest_counting_analytic'))
     if tie and not found:
         ctx.violation('tie-broken', tie[:300], dict(kind='tie', detail=tie, theorem='props/C08.v'), nofail=True)
@@ -595,11 +944,15 @@ def run(ctx):
              'enumerated completely (exhaustive refers to this part); non-trivial = at least one flag set. prerequisites: no POI / POI fixed by '
              'argument / by the model / both / nuisance fixed / empty list / override, x calctype x flag subsets. counting: shapes 1 bin .. 3 '
              'channels x 6 bins with signal = r x background, statistics q (lower bound -0.125), qtilde, q0, observed counts zero / below / at '
-             'background / signal-like / far above, tested mu from {0.5, 1, 2, 3.5} (0 for q0); distinct by the full tuple. histories: simplemodels with nuisance parameters, ONE model object over a sequence of (data, mu, statistic) calls, every call compared with a freshly built model and the Asimov parameters with the conditional fit to the data of that call',
+             'background / signal-like / far above, tested mu from {0.5, 1, 2, 3.5} (0 for q0); distinct by the full tuple. histories: simplemodels with nuisance parameters, ONE model object over a sequence of (data, mu, statistic) calls, every call compared with a freshly built model and the Asimov parameters with the conditional fit to the data of that call. on/off: '
+             'uncorrelated_background one-bin models (s, b, db) with tau = (b/db)^2 in {9, 16, 25, 100, (50/7)^2}, observed count 0 / 0.6 b / b / b+s / 1.6 b+3 / '
+             'b+12 s (best fit clamped at the upper POI bound), auxiliary datum tau x {1, 0.8, 1.25}, statistics q (POI lower bound -0.125 passed as '
+             'par_bounds), qtilde, q0, tested mu from {0.5, 1, 2, 3.5}; distinct by the full tuple',
         backends=backends, stats=stats,
         samples=[dict(layout=dict(calctype=lkeys[5][0], kwargs=KW[lkeys[5][1]], flags=dict(zip(FLAGS, lkeys[5][2]))),
                       model_layout=(lmodels[5] if lmodels else None)),
-                 dict(counting={k: ccases[0][k] for k in ('channels', 'r', 'kind', 'n', 'mu')}, impl=couts[0])])
+                 dict(counting={k: ccases[0][k] for k in ('channels', 'r', 'kind', 'n', 'mu')}, impl=couts[0]),
+                 dict(onoff=ocase(ocases[len(ocases) // 2]), impl=oouts[len(ocases) // 2])])
 
 
 def replay(body):
@@ -616,6 +969,19 @@ def replay(body):
     elif kind == 'prereq':
         pc = [p for p in prereq_cases() if p['name'] == c['prereq'] and p['ct'] == c['calctype'] and list(p['flags']) == list(c['flags'])]
         print('pyhf:', run_prereq(pc[0]) if pc else 'case not found', ' expected:', body.get('expected'))
+    elif kind in ('onoff', 'onoff-raises'):
+        o = run_onoff([c])[0]
+        print('pyhf returns:', json.dumps(o, default=str))
+        tau = onoff_tau(c['b'], c['db'])
+        amu = 1.0 if c['kind'] == 'q0' else 0.0
+        g = oo_gcond(c['n'], c['m'], c['s'], c['b'], tau, amu)
+        an, am = amu * c['s'] + g * c['b'], g * tau
+        mh = oo_muhat(c['n'], c['m'], c['s'], c['b'], tau, c['lo'], c['hi'])
+        print('closed form (float evaluation of coq/HypotestNuis.v):', json.dumps(dict(
+            asimov=[an, am], asimov_pars=[amu, g], free_fit_to_data=[mh, oo_gcond(c['n'], c['m'], c['s'], c['b'], tau, mh)],
+            q=oo_stat(c['kind'], c['n'], c['m'], c['s'], c['b'], tau, c['lo'], c['hi'], c['mu']),
+            qA=oo_stat(c['kind'], an, am, c['s'], c['b'], tau, c['lo'], c['hi'], c['mu']))))
+        print('expected:', json.dumps(body.get('expected'), default=str))
     elif kind == 'history':
         outs = run_history(dict(model=c['model'], kwargs=c['kwargs'], calls=c['history']))
         print('last call of the history, reused vs fresh model object:', json.dumps(outs[-1], default=str))
